@@ -14,6 +14,7 @@ import Osmium.Lemmas.BufFieldLaws
 import Osmium.Lemmas.BufBuildFields
 import Osmium.Generated.Src
 import Osmium.Lemmas.CxxSem
+import Osmium.Lemmas.SrcTie
 
 namespace Osmium.Buf.C04
 
@@ -520,6 +521,194 @@ theorem src_tie_calculate_capacity (c : Nat) (h : c + 7 < 2 ^ 64) :
 theorem src_defined_padded_length (n : Int) :
     Src.Item.padded_length_defined n = true ∧ Src.Buffer.Buffer.calculate_capacity_defined n = true := by
   constructor <;> rfl
+
+/-! #### the counter methods of `Buffer`, translated as state transformers over the members
+     (`Src.Buffer.Buffer`: m_capacity, m_written, m_committed, m_auto_grow), against `execBufOp` / `reserve` -/
+open Osmium.SrcTie
+
+/-- `Buffer::commit()`: returns the old `committed`, new state represents the model's commit -/
+theorem src_tie_buffer_commit (s : Src.Buffer.Buffer) (b : Buf) (h : BufRep s b) :
+    ∃ s', Src.Buffer.Buffer.commit s = .normal s' (b.committed : Int) ∧ BufRep s' { b with committed := b.written } := by
+  obtain ⟨h1, h2, h3, h4⟩ := h
+  rw [← h3]
+  exact ⟨_, rfl, h1, h2, h2, h4⟩
+
+/-- `Buffer::rollback()` (model: `bytes := comm`), on every buffer with `committed ≤ written` -/
+theorem src_tie_buffer_rollback (s : Src.Buffer.Buffer) (b : Buf) (h : BufRep s b) (hc : b.committed ≤ b.written) :
+    ∃ s', Src.Buffer.Buffer.rollback s = .normal s' () ∧ BufRep s' { b with bytes := b.comm } := by
+  obtain ⟨h1, h2, h3, h4⟩ := h
+  refine ⟨_, rfl, h1, ?_, h3, h4⟩
+  have : (b.bytes.take b.committed).length = b.committed := by
+    rw [List.length_take]; unfold Buf.written at hc; omega
+  simp only [Buf.written, Buf.comm, this]; exact h3
+
+/-- `Buffer::clear()`: returns the old `committed` -/
+theorem src_tie_buffer_clear (s : Src.Buffer.Buffer) (b : Buf) (h : BufRep s b) :
+    ∃ s', Src.Buffer.Buffer.clear s = .normal s' (b.committed : Int) ∧ BufRep s' { b with bytes := [], committed := 0 } := by
+  obtain ⟨h1, h2, h3, h4⟩ := h
+  rw [← h3]
+  refine ⟨_, rfl, h1, ?_, ?_, h4⟩ <;> simp [Buf.written]
+
+/-- `capacity()`, `written()`, `committed()` -/
+theorem src_tie_buffer_getters (s : Src.Buffer.Buffer) (b : Buf) (h : BufRep s b) :
+    Src.Buffer.Buffer.capacity s = (b.cap : Int) ∧ Src.Buffer.Buffer.written s = (b.written : Int) ∧
+    Src.Buffer.Buffer.committed s = (b.committed : Int) := ⟨h.1, h.2.1, h.2.2.1⟩
+
+/-- `is_aligned()`; with an aligned `committed` (true in every reachable state) it is the model's test on the
+    length of the uncommitted part (`plan`: `pendLen % 8 ≠ 0 → misaligned`) -/
+theorem src_tie_buffer_is_aligned (s : Src.Buffer.Buffer) (b : Buf) (h : BufRep s b) :
+    Src.Buffer.Buffer.is_aligned_defined s = true ∧
+    Src.Buffer.Buffer.is_aligned s = (decide (b.written % 8 = 0) && decide (b.committed % 8 = 0)) ∧
+    (b.committed % 8 = 0 → b.committed ≤ b.written →
+      Src.Buffer.Buffer.is_aligned s = decide (b.pend.length % 8 = 0)) := by
+  obtain ⟨h1, h2, h3, h4⟩ := h
+  have e : Src.Buffer.Buffer.is_aligned s = (decide (b.written % 8 = 0) && decide (b.committed % 8 = 0)) := by
+    rw [Bool.eq_iff_iff]
+    simp only [Src.Buffer.Buffer.is_aligned, Src.Item.align_bytes, h2, h3, Bool.and_eq_true, eq_iff, decide_eq_true_eq,
+      show (8 : Int) = ((8 : Nat) : Int) from rfl, tmod_nat]
+    omega
+  refine ⟨by simp [Src.Buffer.Buffer.is_aligned_defined, Src.Item.align_bytes], e, fun ha hc => ?_⟩
+  have hl : b.pend.length = b.written - b.committed := by simp [Buf.pend, Buf.written]
+  rw [e, hl, Bool.eq_iff_iff]
+  simp only [Bool.and_eq_true, decide_eq_true_eq]
+  omega
+
+/-- the two capacity tests of `reserve_space(n)` (`m_written + size > m_capacity`), as long as the unsigned sum
+    does not wrap -/
+theorem src_tie_reserve_space_cond_full (s : Src.Buffer.Buffer) (b : Buf) (n : Nat) (h : BufRep s b)
+    (hn : b.written + n < 2 ^ 64) :
+    Src.Buffer.reserve_space_cond_full s n = decide (b.written + n > b.cap) ∧
+    Src.Buffer.reserve_space_cond_still_full s n = decide (b.written + n > b.cap) := by
+  obtain ⟨h1, h2, h3, h4⟩ := h
+  have e : wrapU 64 ((b.written : Int) + (n : Int)) = ((b.written + n : Nat) : Int) := by
+    rw [← Int.natCast_add]; exact wrapU_nat hn
+  constructor <;> rw [Bool.eq_iff_iff] <;>
+    simp only [Src.Buffer.reserve_space_cond_full, Src.Buffer.reserve_space_cond_still_full, h1, h2, e, gt_iff,
+      decide_eq_true_eq] <;> omega
+
+/-- `m_auto_grow == auto_grow::internal && m_committed != 0` is the guard of `growInternal` in `growFor` -/
+theorem src_tie_reserve_space_cond_grow_internal (s : Src.Buffer.Buffer) (b : Buf) (h : BufRep s b) :
+    Src.Buffer.reserve_space_cond_grow_internal s = decide (b.mode = .internal ∧ b.committed ≠ 0) := by
+  obtain ⟨h1, h2, h3, h4⟩ := h
+  rw [Bool.eq_iff_iff]
+  simp only [Src.Buffer.reserve_space_cond_grow_internal, h3, h4, Bool.and_eq_true, eq_iff, ne_iff, decide_eq_true_eq]
+  cases b.mode <;> simp [modeCode, Src.Buffer.Buffer.auto_grow.internal] <;> omega
+
+/-- one run of the translated doubling loop against the model's `dbl`, for any fuel that covers it -/
+theorem reserve_loop_aux (s : Src.Buffer.Buffer) (size : Int) (need : Nat)
+    (hneed : wrapU 64 (s.m_written + size) = (need : Int)) (h63 : need < 2 ^ 63) :
+    ∀ (f1 f2 c : Nat), 0 < c → need < c * 2 ^ f1 → need < c * 2 ^ f2 →
+      Src.Buffer.reserve_space_loop_double (fuel := f1 + 1) (self := s) (size := size) (new_capacity := (c : Int))
+        = some ((dbl f2 need c : Nat) : Int) := by
+  intro f1
+  induction f1 with
+  | zero =>
+    intro f2 c hc h1 h2
+    have hle : ¬ (c < need) := by omega
+    have hi : ¬ ((c : Int) < (need : Int)) := by omega
+    have hi2 : (need : Int) ≤ (c : Int) := by omega
+    unfold Src.Buffer.reserve_space_loop_double
+    simp only [hneed, gt, lt, ge, le, gt_iff_lt, ge_iff_le, Int.not_lt, Int.not_le, hi, hi2, decide_false, decide_true, Bool.not_true,
+      Bool.not_false, Bool.false_eq_true, if_false]
+    cases f2 with
+    | zero => rfl
+    | succ f2 => simp [dbl, hle]
+  | succ f1 ih =>
+    intro f2 c hc h1 h2
+    unfold Src.Buffer.reserve_space_loop_double
+    by_cases hlt : c < need
+    · have hi : ((c : Int) < (need : Int)) := by omega
+      have hi2 : ¬ (need : Int) ≤ (c : Int) := by omega
+      have e2 : wrapU 64 ((c : Int) * 2) = ((c * 2 : Nat) : Int) := by
+        rw [show (c : Int) * 2 = ((c * 2 : Nat) : Int) by omega]; exact wrapU_nat (by omega)
+      have e3 : wrapU 64 (2 * (c : Int)) = ((c * 2 : Nat) : Int) := by rw [Int.mul_comm]; exact e2
+      simp only [hneed, gt, lt, ge, le, gt_iff_lt, ge_iff_le, hi, hi2, decide_true, decide_false, Bool.not_true, Bool.not_false,
+        Bool.false_eq_true, if_true, if_false, e2, e3]
+      cases f2 with
+      | zero => omega
+      | succ f2 =>
+        have a1 : c * 2 ^ (f1 + 1) = c * 2 * 2 ^ f1 := by rw [Nat.pow_succ]; ac_rfl
+        have a2 : c * 2 ^ (f2 + 1) = c * 2 * 2 ^ f2 := by rw [Nat.pow_succ]; ac_rfl
+        have := ih f2 (c * 2) (by omega) (by omega) (by omega)
+        simp only [dbl, gt_iff_lt, hlt, if_true]
+        exact this
+    · have hi : ¬ ((c : Int) < (need : Int)) := by omega
+      have hi2 : (need : Int) ≤ (c : Int) := by omega
+      simp only [hneed, gt, lt, ge, le, gt_iff_lt, ge_iff_le, hi, hi2, decide_false, decide_true, Bool.not_true, Bool.not_false,
+        Bool.false_eq_true, if_false]
+      cases f2 with
+      | zero => rfl
+      | succ f2 => simp [dbl, hlt]
+
+/-- the capacity `reserve_space(n)` passes to `grow()`: the translated initialiser `m_capacity * 2` followed by
+    the translated loop `while (m_written + size > new_capacity) new_capacity *= 2` returns — within 64
+    iterations, so for every fuel ≥ 64 — exactly the model's `dbl need need (cap * 2)` of `growFor`,
+    for every buffer of non-zero capacity below 2^62 and `written + n < 2^63`.
+    (Beyond 2^63 the unsigned `new_capacity` wraps to 0 and the C++ loop does not terminate.) -/
+theorem src_tie_reserve_space_doubling (s : Src.Buffer.Buffer) (b : Buf) (n : Nat) (h : BufRep s b)
+    (hcap : 0 < b.cap) (hcap2 : b.cap < 2 ^ 62) (hn : b.written + n < 2 ^ 63) (fuel : Nat) (hf : 64 ≤ fuel) :
+    Src.Buffer.reserve_space_new_capacity s = ((b.cap * 2 : Nat) : Int) ∧
+    Src.Buffer.reserve_space_loop_double (fuel := fuel) (self := s) (size := n) (new_capacity := Src.Buffer.reserve_space_new_capacity s) =
+      some ((dbl (b.written + n) (b.written + n) (b.cap * 2) : Nat) : Int) := by
+  obtain ⟨h1, h2, h3, h4⟩ := h
+  have e1 : Src.Buffer.reserve_space_new_capacity s = ((b.cap * 2 : Nat) : Int) := by
+    simp only [Src.Buffer.reserve_space_new_capacity, h1]
+    rw [show (b.cap : Int) * 2 = ((b.cap * 2 : Nat) : Int) by omega]; exact wrapU_nat (by omega)
+  refine ⟨e1, ?_⟩
+  rw [e1]
+  have hneed : wrapU 64 (s.m_written + (n : Int)) = ((b.written + n : Nat) : Int) := by
+    rw [h2, ← Int.natCast_add]; exact wrapU_nat (by omega)
+  obtain ⟨f, rfl⟩ : ∃ f, fuel = f + 1 := ⟨fuel - 1, by omega⟩
+  have p1 : (2 : Nat) ^ 63 ≤ 2 ^ f := Nat.pow_le_pow_right (by decide) (by omega)
+  have p2 : b.written + n < 2 ^ (b.written + n) := Nat.lt_two_pow_self
+  apply reserve_loop_aux s n (b.written + n) hneed hn f (b.written + n) (b.cap * 2) (by omega)
+  · calc b.written + n < 2 ^ 63 := hn
+      _ ≤ 2 ^ f := p1
+      _ ≤ b.cap * 2 * 2 ^ f := Nat.le_mul_of_pos_left _ (by omega)
+  · calc b.written + n < 2 ^ (b.written + n) := p2
+      _ ≤ b.cap * 2 * 2 ^ (b.written + n) := Nat.le_mul_of_pos_left _ (by omega)
+
+-- the hypotheses are satisfiable
+example : BufRep ⟨64, 24, 8, 2⟩
+    ({ cap := 64, committed := 8, bytes := List.replicate 24 0, nested := [], mode := Mode.internal, epoch := 0, fill := 0, valid := true } : Buf) := by
+  refine ⟨rfl, ?_, rfl, rfl⟩; simp [Buf.written]
+-- and the translated loop really runs: 64 → 128 → 256 for written + size = 200
+example : Src.Buffer.reserve_space_loop_double (fuel := 64) (self := ⟨64, 24, 8, 2⟩) (size := 176) (new_capacity := 128) = some 256 := by
+  decide
+
+/-! #### `OSMObject::set_version / set_deleted / set_visible`: writes to the bit-fields `m_version : 31`,
+     `m_deleted : 1` (the translator stores `wrapU 31 version`), against the word update of `plan (.setVersion v)` /
+     `plan (.setDeleted d)`: `u32 % 2 + 2 * v`, `u32 / 2 * 2 + (if d then 1 else 0)` -/
+
+/-- `set_version(v)`: only the version bits of the shared word change, to `v mod 2^31`; the model writes
+    `(old % 2 + 2 * v) mod 2^32` (`setLE … 4`) -/
+theorem src_tie_set_version (o : Src.Object.OSMObject) (v : Nat) :
+    ∃ o', Src.Object.OSMObject.set_version_u32 o v = .normal o' () ∧
+      versionWord o' = (versionWord o % 2 + 2 * (v : Int)) % 2 ^ 32 ∧
+      o' = { o with m_version := o'.m_version } := by
+  refine ⟨_, rfl, ?_, rfl⟩
+  simp only [versionWord, wrapU, ofBool]
+  cases o.m_deleted <;> simp <;> omega
+
+/-- `set_deleted(d)` / `set_visible(!d)`: only bit 0 of the word changes -/
+theorem src_tie_set_deleted (o : Src.Object.OSMObject) (d : Bool) :
+    (∃ o', Src.Object.OSMObject.set_deleted o d = .normal o' () ∧
+      versionWord o' = versionWord o / 2 * 2 + (if d then 1 else 0) ∧ o' = { o with m_deleted := d }) ∧
+    Src.Object.OSMObject.set_visible_b o (!d) = Src.Object.OSMObject.set_deleted o d := by
+  refine ⟨⟨_, rfl, ?_, rfl⟩, by simp [Src.Object.OSMObject.set_visible_b, Src.Object.OSMObject.set_deleted]⟩
+  simp only [versionWord, ofBool]
+  cases o.m_deleted <;> cases d <;> simp <;> omega
+
+/-- the numeric values of `item_type` the layout model hard-codes are the enumerators of the source -/
+theorem src_tie_item_type_values :
+    (tyNode : Int) = Src.ItemType.item_type.node ∧ (tyWay : Int) = Src.ItemType.item_type.way ∧
+    (tyRelation : Int) = Src.ItemType.item_type.relation ∧ (tyArea : Int) = Src.ItemType.item_type.area ∧
+    (tyChangeset : Int) = Src.ItemType.item_type.changeset ∧ (tyTagList : Int) = Src.ItemType.item_type.tag_list ∧
+    (tyWayNodeList : Int) = Src.ItemType.item_type.way_node_list ∧
+    (tyMemberList : Int) = Src.ItemType.item_type.relation_member_list ∧
+    (tyMemberListFull : Int) = Src.ItemType.item_type.relation_member_list_with_full_members ∧
+    (tyOuterRing : Int) = Src.ItemType.item_type.outer_ring ∧ (tyInnerRing : Int) = Src.ItemType.item_type.inner_ring ∧
+    (tyDiscussion : Int) = Src.ItemType.item_type.changeset_discussion := by decide
 
 end SrcTies
 
